@@ -28,8 +28,15 @@ func VerifHarness_C09_Handler() {
 	}
 	verifAssert(verifRespWriteCount() == 1, "POST: exactly one body is written")
 	proved := verifHappened("call:ProveInsertion") || verifHappened("call:ProveDeletion")
-	if verifHappened("readall_error") || !proved {
+	decoded := verifHappened("retnil:InsertionParameters).UnmarshalJSON") || verifHappened("retnil:DeletionParameters).UnmarshalJSON")
+	if verifHappened("readall_error") || !decoded {
 		verifAssert(verifRespStatus() == 400 && verifRespBodyIsError("malformed_body"), "unreadable or undecodable body: 400 malformed_body")
+		verifAssert(!proved, "an undecodable body never reaches the prover")
+		return
+	}
+	verifAssert(proved, "a decoded document is handed to the prover (dimension errors are proving errors)")
+	if !proved {
+		verifAssert(verifRespStatus() == 400 && verifRespBodyIsError("proving_error"), "wrong dimensions or unprovable batch: 400 proving_error")
 		return
 	}
 	verifAssert(verifBodyWellFormed(), "a body that is not one well-formed JSON document never reaches the prover")
